@@ -55,10 +55,10 @@ PROPS = {
                 'query_bound_at_entry_instant', 'query_bound_at_midnight', 'query_bound_arbitrary_time_of_day', 'query_bound_far_past',
                 'query_bound_far_future', 'query_all_none_valueerror', 'query_bound_with_utc_offset'],
         batches=[
-            cal('cal-fault-free', 1500, 40000, 50, mode='history', faults=False),
-            cal('cal-clock-steps', 1500, 40000, 50, mode='history', faults=True),
+            cal('cal-fault-free', 1500, 20000, 50, mode='history', faults=False),
+            cal('cal-clock-steps', 1500, 20000, 50, mode='history', faults=True),
             # fault-free again, but every bound is written with a chooser-chosen UTC offset (same instants, other notation)
-            cal('cal-utc-offset-bounds', 500, 10000, 50, mode='history', faults=False, tz_offsets=True),
+            cal('cal-utc-offset-bounds', 500, 6000, 50, mode='history', faults=False, tz_offsets=True),
         ],
         wall=dict(quick=75, thorough=880),
         assumptions=['bounds are timezone-aware datetimes / ISO strings (UTC; in batch cal-utc-offset-bounds any UTC offset); naive bounds are not generated',
@@ -71,8 +71,8 @@ PROPS = {
                 'dom_exceeds_length_of_next_month', 'dom_exceeds_length_of_this_month', 'dow_same_weekday_after_time',
                 'date_in_past_negative_delay', 'boot_first_call', 'boot_later_call_not_knowable', 'view_events_called'],
         batches=[
-            cal('cal-fault-free', 6000, 250000, 250, mode='delay', faults=False),
-            cal('cal-clock-steps', 6000, 250000, 250, mode='delay', faults=True),
+            cal('cal-fault-free', 6000, 100000, 250, mode='delay', faults=False),
+            cal('cal-clock-steps', 6000, 100000, 250, mode='delay', faults=True),
         ],
         wall=dict(quick=75, thorough=880),
         assumptions=['times of day without microseconds; naive or tzinfo=UTC (other zones not generated)', 'day of month 1..31, weekday 0..6 (the documented ranges)'],
